@@ -126,9 +126,12 @@ class InterceptingLLUDPProxyProtocol(UDPProxyProtocol):
                 raise
 
         if message.name == "AgentMovementComplete":
+            # Forces the (lazily parsed) body to be decoded before anything is changed on the
+            # strength of the message's name, a truncated one must not move the main region.
+            region_handle = message["Data"]["RegionHandle"]
             self.session.main_region = region
             if region.handle is None:
-                region.handle = message["Data"]["RegionHandle"]
+                region.handle = region_handle
             LOG.info(f"Setting main region to {region!r}, had circuit addr {packet.far_addr!r}")
             AddonManager.handle_region_changed(self.session, region)
         if message.name == "RegionHandshake":
